@@ -2,7 +2,10 @@ import props
 
 CONFIG = {
     "runs": props.simple("c06", 120, 1500),
-    "status": "proved modulo one explicit hypothesis (exec_spec): "
+    "status": "proved FULL (the former hypothesis exec_spec is now a theorem: C06_exec_spec_holds; final forms C06_enumerate_page_final, "
+              "C06_enumerate_page_cursor_final, C06_enumerate_none_iff_final, C06_enumerate_none_keeps_cursor_final, C06_pages_cyclic_final, "
+              "C06_pages_within_cycle_final, C06_pages_within_cycle_from_final, C06_pages_cycle_final carry no execute_query hypothesis; they need WFQ = WF + "
+              "unique leaves + all nodes reachable + non-zero literals, all established by check_wf). The conditional forms are kept: "
               "C06_enum_is_model_set, C06_compatible_count; "
               "C06_mixed_radix_prefix (plain lists: truncating the factors as the And loop does keeps the first hi elements of the "
               "cartesian product); "
@@ -17,16 +20,17 @@ CONFIG = {
               "cycle, a full cycle is a permutation of ModelsA and returns the cursor to 0); C06_EOr_models, "
               "C06_sorted_is_canonical, C06_sort_abs_canon (returned configurations are the truth-table rows), "
               "C06_sort_abs_perm_eq (cursor key independent of literal order). "
-              "HYPOTHESIS of the page/history theorems: exec_spec C n A = execute_query on the preprocessed scratch returns "
+              "exec_spec C n A (hypothesis of the conditional forms, PROVED for every WFQ circuit and in-range A of any length/order/repetition, contradictory, core and dead literals included, "
+              "in Proofs/ExecTemps.v + Proofs/C06Final.v: marker strategy = marked nodes recomputed + unmarked nodes have no zeroed leaf below and keep the cached count; default strategy = every "
+              "position recomputed; core shortcuts returning the cached count = nothing was zeroed) = execute_query on the preprocessed scratch returns "
               "r = MCA C n A, if r > 0 leaves temps = countsA (sort_abs A) on every non-true node (the core shortcut that answers 0 "
-              "does not recompute temps) and keeps the scratch Clean (correctness of execute_query, proved separately; checked by "
-              "vm_compute on all partial assignments of three example circuits, marker and default strategy); discharged here for A = [] (C06_exec_spec_nil), so "
-              "C06_enumerate_page_nil and C06_pages_cycle_nil are unconditional. Side conditions: 0 < n "
+              "does not recompute temps) and keeps the scratch Clean (also evaluated by "
+              "vm_compute on all partial assignments of three example circuits, marker and default strategy). Side conditions: 0 < n "
               "(C06_true_root_refuted: the one-node circuit TrueN with 0 features returns an empty page and has rt = 0) and "
               "or_no_true_child. Correspondence: pages are compared EXACTLY (order included) with the extracted model of "
               "enumerate_node/enumerate and judged by the truth-table oracle (page size, no duplicate within a cycle, models "
               "containing A)",
     "assumptions": ["cursor reset (hook) at the start of every history; amounts < 2^64",
-                    "exec_spec (correctness of execute_query on the preprocessed scratch incl. temps of non-true nodes) is a "
-                    "hypothesis of the page theorems for A <> []"],
+                    "assumption literals within 1..n for the page theorems (non-zero for the None-iff theorem); WFQ circuits (check_wf); "
+                    "0 < n and or_no_true_child (both necessary, refutation examples in Props/C06.v)"],
 }
